@@ -276,10 +276,10 @@ private theorem withFlow_preserves (hB : H.maxHead ≤ B) (stored : FlowKey) (is
 
 /-- Every segment whose payload is at most `L` bytes preserves the per-connection bound
 `B = max(maxHead, L)`. -/
-theorem http_preserves (L : Nat) (s : Seg) (hs : s.payload.length ≤ L) :
-    Preserves (HttpInv (max H.maxHead L)) (httpProg H s) := by
+theorem httpDispatch_preserves (L : Nat) (s : Seg) (hs : s.payload.length ≤ L) :
+    Preserves (HttpInv (max H.maxHead L)) (httpDispatch H s) := by
   have hB : H.maxHead ≤ max H.maxHead L := Nat.le_max_left ..
-  unfold httpProg
+  unfold httpDispatch
   refine .get _ _ (fun r hr => ?_)
   cases r with
   | some f => exact withFlow_preserves H _ hB _ true f s (hr f rfl) (fun _ => rfl)
@@ -295,6 +295,16 @@ theorem http_preserves (L : Nat) (s : Seg) (hs : s.payload.length ≤ L) :
         simp only [sumLen, List.map_cons, List.map_nil, List.sum_cons, List.sum_nil, Nat.add_zero]
         exact Nat.le_trans hs (Nat.le_max_right ..)
       · exact .ret _
+
+theorem http_preserves (L : Nat) (s : Seg) (hs : s.payload.length ≤ L) :
+    Preserves (HttpInv (max H.maxHead L)) (httpProg H s) := by
+  unfold httpProg
+  split
+  · refine .get _ _ (fun f _ => ?_)
+    split
+    · exact httpDispatch_preserves H L s hs
+    · exact .remove _ _ (.remove _ _ (httpDispatch_preserves H L s hs))
+  · exact httpDispatch_preserves H L s hs
 
 /-- **C11, HTTP memory.** After ANY trace of segments (payloads ≤ L), from an empty table of any
 capacity, the bytes retained are at most `cap × 2·max(maxHead, L)`. -/
@@ -382,8 +392,8 @@ theorem readerAdd_pending_inv {S : Type} (parse : Bytes → AddRes S) (r : Reade
           · injection h with h _; subst h; exact ⟨rfl, by simp⟩
           · injection h with _ h; cases h
 
-theorem tls_preserves {S : Type} (parse : Bytes → AddRes S) (isTls : Bytes → Bool) (s : Seg) :
-    Preserves TlsInv (tlsProg (tlsParamsOf parse isTls) s) := by
+theorem tlsBody_preserves {S : Type} (parse : Bytes → AddRes S) (isTls : Bytes → Bool) (s : Seg) :
+    Preserves TlsInv (tlsBody (tlsParamsOf parse isTls) s) := by
   have hnew : TlsInv ⟨s.src, s.dst⟩ ({} : Reader) := ⟨rfl, by simp⟩
   have hwith : ∀ r : Reader, TlsInv ⟨s.src, s.dst⟩ r →
       Preserves TlsInv (tlsWithReader (tlsParamsOf parse isTls) ⟨s.src, s.dst⟩ s.payload r) := by
@@ -395,7 +405,7 @@ theorem tls_preserves {S : Type} (parse : Bytes → AddRes S) (isTls : Bytes →
       | sig x => exact .remove _ _ (.ret _)
       | pending => exact .set _ _ _ (readerAdd_pending_inv parse r s.payload _ hr r' hres) (.ret _)
       | err => exact .remove _ _ (.ret _)
-  unfold tlsProg
+  unfold tlsBody
   dsimp only
   split
   · exact .ret _
@@ -411,6 +421,13 @@ theorem tls_preserves {S : Type} (parse : Bytes → AddRes S) (isTls : Bytes →
         cases r with
         | some r => dsimp only; exact hwith r (hr r rfl)
         | none => exact .ret _
+
+theorem tls_preserves {S : Type} (parse : Bytes → AddRes S) (isTls : Bytes → Bool) (s : Seg) :
+    Preserves TlsInv (tlsProg (tlsParamsOf parse isTls) s) := by
+  unfold tlsProg
+  split
+  · exact .remove _ _ (tlsBody_preserves parse isTls s)
+  · exact tlsBody_preserves parse isTls s
 
 /-- **C11, TLS memory.** After ANY trace, the bytes buffered are at most `cap × (64 KiB + 4)`. -/
 theorem tls_memory_bounded {S : Type} (parse : Bytes → AddRes S) (isTls : Bytes → Bool) (cap : Nat)
